@@ -177,3 +177,136 @@ INTERVALS = ['00000000000000.000000:000', '99999999235959.999999:000', '00000183
 
 HOSTS = [None, 'h', 'H.x:5988', '[::1]', '[fe80::1-eth0]:5989', 'my-host', 'u:p@h']
 NAMESPACES = [None, 'a', 'A/b', 'root/CIMv2']
+
+
+# ------------------------------------------------------------------------------------------
+# spec validity (the minimiser must stay inside the spec language and inside the CIM domain:
+# non-empty CIM names, known type names, well-formed nodes)
+
+import re as _re
+_NAME_RE = _re.compile(r'^[^\W\d]\w*$', _re.UNICODE)
+_KW = {
+    'qual': {'type', 'propagated', 'overridable', 'tosubclass', 'toinstance', 'translatable'},
+    'prop': {'type', 'class_origin', 'array_size', 'propagated', 'is_array', 'reference_class',
+             'qualifiers', 'embedded_object'},
+    'param': {'reference_class', 'is_array', 'array_size', 'qualifiers', 'value', 'embedded_object'},
+    'meth': {'class_origin', 'propagated', 'qualifiers'},
+    'inst': {'qualifiers', 'property_list'},
+    'class': {'superclass', 'qualifiers', 'path'},
+    'qdecl': {'value', 'is_array', 'array_size', 'scopes', 'overridable', 'tosubclass',
+              'toinstance', 'translatable'},
+}
+
+
+def _name_ok(n):
+    return isinstance(n, str) and bool(_NAME_RE.match(n))
+
+
+def _kw_ok(tag, kw):
+    if kw is None:
+        return True
+    if not isinstance(kw, dict) or not set(kw) <= _KW[tag]:
+        return False
+    for k, v in kw.items():
+        if k == 'qualifiers':
+            if v is not None and not (isinstance(v, list) and all(valid(q) and q[0] == 'qual' for q in v)):
+                return False
+        elif k == 'value':
+            if not valid_value(v):
+                return False
+        elif k == 'path':
+            if not (valid(v) and v[0] in ('cpath', 'n')):
+                return False
+        elif k in ('class_origin', 'reference_class', 'superclass'):
+            if v is not None and not _name_ok(v):
+                return False
+        elif k == 'type':
+            if v is not None and v not in ALL_TYPES:
+                return False
+    return True
+
+
+def _char16_ok(v):
+    if v[0] == 's':
+        return len(v) == 2 and isinstance(v[1], str) and len(v[1]) == 1 and ord(v[1]) <= 0xFFFF
+    if v[0] == 'a':
+        return all(isinstance(x, list) and _char16_ok(x) for x in v[1])
+    return True
+
+
+def valid_value(s):
+    if not valid(s):
+        return False
+    if s[0] == 'a':
+        return True
+    return s[0] in ('n', 's', 'b', 'i', 'r', 'dt', 'ipath', 'cpath', 'inst', 'class')
+
+
+def valid(s):
+    try:
+        if not isinstance(s, list) or not s or not isinstance(s[0], str):
+            return False
+        t = s[0]
+        if t == 'n':
+            return len(s) == 1
+        if t == 's':
+            return len(s) == 2 and isinstance(s[1], str)
+        if t == 'b':
+            return len(s) == 2 and isinstance(s[1], bool)
+        if t == 'i':
+            return len(s) == 3 and (s[1] is None or s[1] in INT_TYPES) and isinstance(s[2], int) \
+                and not isinstance(s[2], bool)
+        if t == 'r':
+            if len(s) != 3 or not (s[1] is None or s[1] in REAL_TYPES) or not isinstance(s[2], str):
+                return False
+            _float(s[2])
+            return True
+        if t == 'dt':
+            return len(s) == 2 and isinstance(s[1], str) and len(s[1]) == 25
+        if t == 'a':
+            return len(s) == 2 and isinstance(s[1], list) and all(valid_value(x) for x in s[1])
+        if t == 'ipath':
+            if len(s) != 5 or not _name_ok(s[1]) or s[3] == '' or s[4] == '':
+                return False
+            if not isinstance(s[2], list) or not s[2]:
+                return False
+            for kb in s[2]:
+                if not (isinstance(kb, list) and len(kb) == 2 and _name_ok(kb[0]) and
+                        valid(kb[1]) and kb[1][0] in ('s', 'b', 'i', 'r', 'dt', 'ipath')):
+                    return False
+            return all(x is None or isinstance(x, str) for x in s[3:5])
+        if t == 'cpath':
+            return len(s) == 4 and _name_ok(s[1]) and s[2] != '' and s[3] != '' and \
+                all(x is None or isinstance(x, str) for x in s[2:4])
+        if t in ('qual', 'prop', 'param', 'qdecl'):
+            kw = s[3] if len(s) > 3 else None
+            typ = s[2] if t in ('param', 'qdecl') else (kw or {}).get('type')
+            val = s[2] if t in ('qual', 'prop') else (kw or {}).get('value')
+            if typ == 'char16' and isinstance(val, list) and not _char16_ok(val):
+                return False
+        if t in ('qual', 'prop'):
+            return len(s) in (3, 4) and _name_ok(s[1]) and valid_value(s[2]) and \
+                _kw_ok(t, s[3] if len(s) > 3 else None)
+        if t == 'param':
+            return len(s) in (3, 4) and _name_ok(s[1]) and s[2] in ALL_TYPES and \
+                _kw_ok(t, s[3] if len(s) > 3 else None)
+        if t == 'meth':
+            return len(s) in (4, 5) and _name_ok(s[1]) and (s[2] is None or s[2] in ALL_TYPES) and \
+                isinstance(s[3], list) and all(valid(p) and p[0] == 'param' for p in s[3]) and \
+                _kw_ok(t, s[4] if len(s) > 4 else None)
+        if t == 'inst':
+            return len(s) in (4, 5) and _name_ok(s[1]) and isinstance(s[2], list) and \
+                all(valid(p) and p[0] == 'prop' for p in s[2]) and \
+                (s[3] is None or (valid(s[3]) and s[3][0] == 'ipath')) and \
+                _kw_ok(t, s[4] if len(s) > 4 else None)
+        if t == 'class':
+            return len(s) in (4, 5) and _name_ok(s[1]) and isinstance(s[2], list) and \
+                all(valid(p) and p[0] == 'prop' for p in s[2]) and isinstance(s[3], list) and \
+                all(valid(m) and m[0] == 'meth' for m in s[3]) and \
+                _kw_ok(t, s[4] if len(s) > 4 else None)
+        if t == 'qdecl':
+            return len(s) in (3, 4) and _name_ok(s[1]) and s[2] in ALL_TYPES and \
+                _kw_ok(t, s[3] if len(s) > 3 else None)
+        return False
+    except (TypeError, ValueError, IndexError, KeyError, OverflowError):
+        return False
